@@ -526,6 +526,65 @@ Fixpoint erase (n : node) : node :=
   end.
 
 (* ------------------------------------------------------------------------------------ *)
+(* models DERIVED by the library from a composed model (AbstractPriorModel.mapper_from_prior_arguments =
+   gaussian_prior_model_for_arguments(arguments); every grid-search cell, prior passing through a Result, with_limits,
+   mapper_from_prior_means / _uniform_floats go through it).  arguments : prior (by identity) -> the prior replacing it. *)
+(* ------------------------------------------------------------------------------------ *)
+Fixpoint lookupZ (k : Z) (l : list (Z * node)) : option node :=
+  match l with [] => None | (k', v) :: r => if Z.eqb k k' then Some v else lookupZ k r end.
+
+(* the same composition program run BY HAND with the new priors *)
+Fixpoint subst (a : list (Z * node)) (n : node) : node :=
+  match n with
+  | NPrior pid _ _ _ _ _ => match lookupZ pid a with Some p => p | None => n end
+  | NTuple mid ms =>
+      NTuple mid ((fix go (l : list (string * node)) : list (string * node) :=
+                     match l with [] => [] | kv :: r => match kv with (k, v) => (k, subst a v) :: go r end end) ms)
+  | NModel mid lbl cls cargs attrs =>
+      NModel mid lbl cls cargs ((fix go (l : list (string * node)) : list (string * node) :=
+                     match l with [] => [] | kv :: r => match kv with (k, v) => (k, subst a v) :: go r end end) attrs)
+  | NColl mid k attrs =>
+      NColl mid k ((fix go (l : list (string * node)) : list (string * node) :=
+                     match l with [] => [] | kv :: r => match kv with (k, v) => (k, subst a v) :: go r end end) attrs)
+  | _ => n
+  end.
+
+(* what the library builds:
+   Model:      a deep copy whose tuple priors, priors, fixed values and sub-models are re-assigned under their own names
+               (attribute order, class and label are the copy's);
+   TuplePrior: `tuple_prior = TuplePrior()` filled by THREE loops -- the members that are priors, then the fixed members,
+               then the computed ones: unless `ord` (the members are set in one pass in their own order) the new tuple
+               lists its priors first.  (Fixed members are taken in position order, the order Model.__init__ creates them in.)
+   Collection: `collection = Collection()` (a NEW object: item_number 0), every item set under its key, and then --
+               when `keep` -- `collection.item_number = self.item_number`.
+   `keep` and `ord` are read from the source (Gen.derive_copies_item_number, Gen.tuple_derive_keeps_order).  The ids of
+   the new objects are not modelled (the old ones are kept): an id is never described (C07_stable_ids_labels) and the
+   correspondence compares shapes with ids erased. *)
+Definition priors_first (l : list (string * node)) : list (string * node) :=
+  filter (fun kv => is_prior (snd kv)) l ++ filter (fun kv => negb (is_prior (snd kv))) l.
+
+Fixpoint derive_gen (keep ord : bool) (a : list (Z * node)) (n : node) : node :=
+  match n with
+  | NPrior pid _ _ _ _ _ => match lookupZ pid a with Some p => p | None => n end
+  | NTuple mid ms =>
+      let ms' := (fix go (l : list (string * node)) : list (string * node) :=
+                    match l with [] => [] | kv :: r => match kv with (k, v) => (k, derive_gen keep ord a v) :: go r end end) ms in
+      NTuple mid (if ord then ms' else priors_first ms')
+  | NModel mid lbl cls cargs attrs =>
+      NModel mid lbl cls cargs ((fix go (l : list (string * node)) : list (string * node) :=
+                   match l with [] => [] | kv :: r => match kv with (k, v) => (k, derive_gen keep ord a v) :: go r end end) attrs)
+  | NColl mid k attrs =>
+      NColl mid (if keep then k else 0)
+            ((fix go (l : list (string * node)) : list (string * node) :=
+                match l with [] => [] | kv :: r => match kv with (k, v) => (k, derive_gen keep ord a v) :: go r end end) attrs)
+  | _ => n
+  end.
+Definition derive := derive_gen derive_copies_item_number tuple_derive_keeps_order.
+(* several derivations in a row (a grid-search cell of a model obtained by prior passing, ...) *)
+Definition derive_all (steps : list (list (Z * node))) (n : node) : node := fold_left (fun m a => derive a m) steps n.
+Definition subst_all (steps : list (list (Z * node))) (n : node) : node := fold_left (fun m a => subst a m) steps n.
+
+(* ------------------------------------------------------------------------------------ *)
 (* one search object used for several fits (NonLinearSearch.fit):
      self.paths.model = model ; self.paths.unique_tag = self.unique_tag
    both assignments go through IdentifierField.__set__, which drops the cached identifier.
@@ -568,7 +627,11 @@ Inductive case :=
 | CRound (v : float) (r : option float)
 (* one search object fitted several times: what each fit's paths described, from the tag the paths held before *)
 | CHistory (tbl : list (float * string)) (search : node) (initial_tag : option string)
-           (steps : list (node * option string)) (hash_lists : list (list string)).
+           (steps : list (node * option string)) (hash_lists : list (list string))
+(* a fit of a model DERIVED by the library from `base` in `steps` derivations: the live derived model has the shape the
+   model of the derivation predicts AND the shape of the model composed by hand; its description is that of both *)
+| CDerive (tbl : list (float * string)) (search base hand : node) (steps : list (list (Z * node))) (tag : option string)
+          (as_by_hand : bool) (live_model : obj) (hash_list : list string).
 
 Definition check_case (c : case) : bool :=
   match c with
@@ -593,4 +656,12 @@ Definition check_case (c : case) : bool :=
          | o :: l', hl :: m' => slist_eqb (tokens (str_table tbl) o) hl && go l' m'
          | _, _ => false
          end) (run_history s (mkpaths t0) steps) hls
+  | CDerive tbl s base hand steps tag as_by_hand lm hl =>
+      (* (as_by_hand = false: the case carries the label of the recorded finding on derived tuples) *)
+      obj_eqb (strip_us (reify (erase (derive_all steps base)))) (strip_us lm)
+      && slist_eqb (tokens (str_table tbl) (fit_obj s (derive_all steps base) tag)) hl
+      && obj_eqb (strip_us (reify (erase hand))) (strip_us (reify (erase (subst_all steps base))))
+      && (negb as_by_hand
+          || (obj_eqb (strip_us (reify (erase hand))) (strip_us lm)
+              && slist_eqb (tokens (str_table tbl) (fit_obj s hand tag)) hl))
   end.
